@@ -63,7 +63,9 @@ struct SizeCase
 struct TimeCase
 {
     int headerMs, bodyMs, stallPoint, stallIdx, phase;
-    int prior = 0; // 1: the timed request is the SECOND one on a keep-alive connection (first served 750 ms after connect)
+    int prior = 0; // > 0: the timed request comes after earlier ones on a keep-alive connection (each served 750 ms after the
+                   // start of its own clock): 1 = a POST with a body, 2 = a bodyless GET, 3 = a chunked POST, 4 = GET then POST,
+                   // 5 = POST, chunked POST, GET (the timed request is the fourth)
     int coincide = 0; // 1: the completing bytes arrive together with the last clock step (same wake-up as a scan tick)
 };
 static std::vector<SizeCase> gSize;
@@ -182,7 +184,19 @@ static void case_time(const TimeCase& c, vr::Ctx& ctx)
     int T      = c.stallPoint <= 2 ? std::min(c.headerMs, c.bodyMs) : c.bodyMs;
     int stalls[] = { T - 500, T, T + 500, T + 1000 };
     int stall  = stalls[c.stallIdx];
-    std::string what = std::string(c.prior ? "second request on the connection: " : "") + "header=" + std::to_string(c.headerMs) + "ms body=" + std::to_string(c.bodyMs) + "ms stall " + kStallNames[c.stallPoint] + " for " + std::to_string(stall) + "ms phase=" + std::to_string(c.phase) + (c.coincide ? " completion-with-the-last-clock-step" : "");
+    static const char* kPriorNames[] = { "", "second request on the connection: ", "second request (after a bodyless one): ", "second request (after a chunked one): ", "third request on the connection: ", "fourth request on the connection: " };
+    const std::string reqGet = "GET /g HTTP/1.1\r\nHost: h\r\n\r\n";
+    const std::string reqChunked = "POST /c HTTP/1.1\r\nHost: h\r\nTransfer-Encoding: chunked\r\n\r\n3\r\nabc\r\n0\r\n\r\n";
+    std::vector<std::string> priors;
+    switch (c.prior)
+    {
+    case 1: priors = { req }; break;
+    case 2: priors = { reqGet }; break;
+    case 3: priors = { reqChunked }; break;
+    case 4: priors = { reqGet, req }; break;
+    case 5: priors = { req, reqChunked, reqGet }; break;
+    }
+    std::string what = std::string(kPriorNames[c.prior]) + "header=" + std::to_string(c.headerMs) + "ms body=" + std::to_string(c.bodyMs) + "ms stall " + kStallNames[c.stallPoint] + " for " + std::to_string(stall) + "ms phase=" + std::to_string(c.phase) + (c.coincide ? " completion-with-the-last-clock-step" : "");
     ctx.note("time " + what);
     if (c.phase)
     {
@@ -192,19 +206,19 @@ static void case_time(const TimeCase& c, vr::Ctx& ctx)
     sim::ClientConn cl;
     cl.connect_to(srv.port);
     after(steps, true);
-    const int served = c.prior ? 1 : 0;
-    if (c.prior)
+    const int served = (int)priors.size();
+    for (size_t pi = 0; pi < priors.size(); ++pi)
     {
-        // an earlier request, served 750 ms into the connection's life: the next request's clock starts at its completion
+        // an earlier request, served 750 ms into its own clock: the next request's clock starts at its completion
         for (int t = 0; t < 750; t += 250)
         {
             sim::tick(250);
             after(steps, false);
         }
-        cl.send_bytes(req);
+        cl.send_bytes(priors[pi]);
         after(steps, true);
         cl.pump();
-        if (status_of(cl.received) != 200 || gRequests != 1)
+        if (status_of(cl.received) != 200 || gRequests != (int)pi + 1)
         {
             ctx.violation("c14:time:first-request-on-the-connection-not-served", "{\"scenario\":" + vr::jstr(what) + ",\"status\":" + std::to_string(status_of(cl.received)) + "}");
             srv.stop();
@@ -270,7 +284,7 @@ static void case_time(const TimeCase& c, vr::Ctx& ctx)
                 ctx.violation("c14:time:handler-ran-for-timed-out-request", d);
         }
     }
-    ctx.outcome(std::string(c.prior ? "2nd request " : "") + (stall <= T ? "in-time" : "late") + " -> " + std::to_string(st));
+    ctx.outcome(std::string(c.prior ? "later request " : "") + (stall <= T ? "in-time" : "late") + " -> " + std::to_string(st));
     ctx.state(vr::hash_str(what + std::to_string(st)));
     ctx.nontrivial(vr::hash_str(what));
     cl.close_orderly();
@@ -378,9 +392,10 @@ int main(int argc, char** argv)
         for (int sp = 0; sp < 5; ++sp)
             for (int si = 0; si < 4; ++si)
                 for (int ph : { 0, 250 })
-                    for (int prior = 0; prior < 2; ++prior)
+                    for (int prior = 0; prior < (thorough ? 6 : 5); ++prior)
                         for (int co = 0; co < 2; ++co)
-                            gTime.push_back({ p[0], p[1], sp, si, ph, prior, co });
+                            if (prior < 2 || thorough || (sp != 1 && sp != 3)) // quick: the added kinds at three stall points
+                                gTime.push_back({ p[0], p[1], sp, si, ph, prior, co });
     int pairs2[3][2] = { { 1000, 3000 }, { 3000, 1000 }, { 1000, 1000 } };
     for (auto& p : pairs2)
         for (int ka = 0; ka < 5; ++ka)
